@@ -276,7 +276,7 @@ pub fn run(o: &Opts, prop: &str) {
     st.assumptions.push("literal mantissas below 10^7 with scale <= 3: every intermediate Decimal is exact".into());
     st.assumptions.push("no total price on an expression-produced zero (sign bit of zero is not modelled)".into());
     if is02 {
-        st.assumptions.push(format!("rendered errors whose excerpt has a line wider than {} columns are cut by the renderer (terminal width 140) and are not read back (counted as diag:excerpt_cut_not_read); marker columns are related to bytes with unicode-width, the width table annotate-snippets itself uses", diag::MAX_LINE_COLS));
+        st.assumptions.push(format!("errors are rendered by annotate-snippets' plain renderer on a terminal of {} columns, so that no excerpt line is cut (a line beyond {} columns would be counted as diag:excerpt_cut_not_read); marker columns are related to bytes with unicode-width, the width table annotate-snippets itself uses", diag::TERM_WIDTH, diag::MAX_LINE_COLS));
     }
     let nontrivial = move |s: &Shape, o: &Obs| -> bool {
         let has = if is02 { s.asserted > 0 } else { s.omitted + s.assigned > 0 };
